@@ -370,7 +370,7 @@ class OscMessageDispatcher(AbstractWrappingDispatcher):
 
     def __call__(self, msg, time, addr, recv_port):
         if msg[0] in self.active:
-            for func in self.active[msg[0]]:
+            for func in self.active[msg[0]][:]:  # May be modified by func.
                 fn.value(func, msg, time, addr, recv_port)
 
     def register(self):
@@ -390,7 +390,7 @@ class OscMessagePatternDispatcher(OscMessageDispatcher):
         pattern = msg[0]
         for key, funcs in self.active.copy().items():
             if _match_osc_address_pattern(pattern, key):
-                for func in funcs:
+                for func in funcs[:]:  # May be modified by func.
                     fn.value(func, msg, time, addr, recv_port)
 
     def type_key(self):
